@@ -3,6 +3,7 @@
 From Coq Require Extraction.
 From Coq Require Import ExtrOcamlBasic.
 From Octo Require Import Base.Bytes Crypto.Prims Lib.Framed Model.PacketWindow Model.Utf8 Model.Address Model.NonceGen Model.SsChunk Model.SsTcp Model.Trojan Model.Socks5 Model.Http Model.Vmess.
+From Octo Require Import Model.SsUdp.
 Extraction Language OCaml.
 Extraction "model.ml"
   pw_new pw_validate pw_run spec_run pw_reset
@@ -14,4 +15,5 @@ Extraction "model.ml"
   s5_initial_request s5_command_request s5_initial_response s5_command_response s5_udp_decode s5_udp_encode
   recognize_http
   body_new encode_payload_v encode_packet_v decode_payload_v decode_packet_v resp_key resp_iv
-  server_vdecode server_vencode client_vencode client_vdecode kdf16 auth_id_create seal_header open_header parse_header header_bytes fnv1a32.
+  server_vdecode server_vencode client_vencode client_vdecode kdf16 auth_id_create seal_header open_header parse_header header_bytes fnv1a32
+  ssu_encode ssu_decode ssu_session_decode cstate_new client_dgram_decode client_dgram_encode astate_new server_assoc_step server_assoc_run associate_key.
